@@ -7,6 +7,35 @@ V = os.path.dirname(os.path.dirname(os.path.abspath(__file__)))
 props = [json.loads(l) for l in open(os.path.join(V, 'properties.jsonl'))]
 
 CLAIMED = {
+    'C06': dict(
+        text='Decode.tla is a hierarchical transcription of the ARM encoding tables returning (family, encoding, operands, '
+             'unpredictable); MC_Decode (TLC) checks it is total and that every executable result can be executed on a '
+             'skeleton containing every value of the class-selecting fields. Conformance: the implementation\'s ARM decoder '
+             'tree is partitioned exhaustively into ~2.2 million cubes on which it provably takes one path (execution on a '
+             'tracked integer; the cubes tile 2^32 exactly; cross-checked against the untracked decoder on random words); '
+             'each of the ~490 (class, path) groups is executed by emulate_cycle() on members of its cubes - '
+             'representative, all-ones, one flip per free bit of the widest cubes (affine basis), random - under random '
+             'registers, flags and modes on 6 configurations, and TLC judges every step: full post-state where the spec '
+             'specifies the encoding, outcome class (undef / not-implemented / completed) elsewhere, no host error.',
+        note='exhaustive for the implementation\'s class selection; agreement between the spec\'s decode and each cube is '
+             'decided on sampled members (quick ~25k words, thorough ~10^6), not on all 2^32 words; families Decode.tla marks '
+             'Unspec (coprocessor, exclusives, memory hints, banked MRS/MSR, Advanced SIMD) are judged by outcome class only; '
+             'operand extraction is observed through behaviour (a wrong operand changes the post-state for some member).',
+        technique='TLC-checked TLA+ decode specification + exhaustive cube partition of the decoder + TLC trace validation',
+        ref='DESIGN.md §4 C06'),
+    'C07': dict(
+        text='All 2^16 halfwords are executed as the first halfword of a Thumb instruction (quick: one IT position per word '
+             'rotating outside/inside/last; thorough: all three) on ARMv6, v7 and v7-R configurations; TLC judges each step '
+             'against Decode.tla + the instruction semantics: full post-state including the PC advance by 2 or 4, and the '
+             'clause `ilen` compares the implementation\'s opcode_len with the specification\'s top-five-bits rule. The 32-bit '
+             'decoder tree is partitioned exhaustively into ~25k cubes tiling 3*2^27 words; each of the ~430 (class, path) '
+             'groups is executed on cube members (representative, all-ones, per-free-bit flips, random) inside and outside IT '
+             'blocks and judged by TLC. MC_Decode (TLC): totality / executability of the spec decode; MC_Cond: IT machine.',
+        note='16-bit space exhaustive x IT position; 32-bit: exhaustive class partition of the implementation, sampled '
+             'members per cube for agreement with the spec; families marked Unspec are judged by outcome class only; carry-in '
+             'dependence is covered through random C with modified immediates / shifts.',
+        technique='TLC-checked TLA+ decode specification + exhaustive 16-bit enumeration / cube partition + TLC trace validation',
+        ref='DESIGN.md §4 C07'),
     'C09': dict(
         text='Media.tla specifies MUL/MLA/MLS, the long, halfword, dual and most-significant-word multiplies, SDIV/UDIV, '
              'QADD/QSUB/QDADD/QDSUB, SSAT/USAT(16), the 36 parallel add/subtract forms with GE, SEL, USAD8/USADA8, the extend and '
